@@ -1349,6 +1349,14 @@ where
 
         self.min_index.store(new_min, Ordering::Release);
         self.max_index.store(new_max, Ordering::Release);
+
+        // A tail truncation (conflict resolution) gives the removed indexes back: the next index this
+        // node allocates as leader must follow its last entry (or purge boundary), otherwise the log
+        // gets a permanent index gap and client responses are matched to the wrong entries.
+        if end == u64::MAX {
+            let base = new_max.max(self.last_purged_index.load(Ordering::Acquire));
+            self.next_id.store(base + 1, Ordering::Release);
+        }
     }
 
     // Update the term index (completely lock-free)
